@@ -40,8 +40,8 @@ Definition err_code (e : err) : Z :=
 Definition err_obs (e : err) : Z :=
   match e with
   | EShortBuffer => 3          (* io.ErrShortBuffer *)
-  | ELeb128 => 12              (* obu.ErrFailedToReadLEB128 *)
-  | EObuHeader => 13           (* obu.ErrInvalidOBUHeader / obu.ErrShortHeader *)
+  (* which error a malformed AV1 payload, OBU header or LEB128 field is refused with is nobody's clause:
+     ELeb128 and EObuHeader are observed as the general class *)
   | EVlaStreamCount => 18 | EVlaStreamID => 19 | EVlaSpatialID => 20 | EVlaDuplicate => 21
   | EVlaTemporal => 22 | EVlaShort => 23
   | _ => 1
